@@ -63,6 +63,14 @@ def stateDiffs (cc : CCache) (st : Json) : Except String (List String) := do
   if deleted.any (fun (_, _, ids) => ids.isEmpty) then d := d ++ ["deleted registry: impl keeps an empty set"]
   pure d
 
+/-- registrations (key, author, request id) of the implementation's registry whose request is not in its own map -/
+def registryOrphans (st : Json) : Except String (List (String × String × String)) := do
+  let strs := asList asStr
+  let evs ← asList strs (← fld st "evs")
+  let deleted ← asList (fun j => do pure ((← strF j "key"), (← strF j "pubkey"), (← strs (← fld j "ids")))) (← fld st "deleted")
+  let ids := evs.map fun p => p.getD 1 ""
+  pure (deleted.flatMap fun (k, p, rs) => (rs.filter fun r => !ids.contains r).map fun r => (k, p, r))
+
 def monOf (cls : String) : String :=
   if cls.startsWith "isolation" || cls == "not-deleted" || cls == "flag-suppressed" then "deletion" else "retention"
 
@@ -94,6 +102,10 @@ def step (st : St) (j : Json) : Except String (St × Drv.Out) := do
     | sj =>
       o := o.tag "state.compared"
       for m in (← stateDiffs cc' sj) do o := o.diff s!"internal tables after Add({short e.id}): {m}"
+      -- judged on the implementation's own tables: a registration whose request is not retained blocks its
+      -- target although no retained deletion request stands behind it (the block can never lift)
+      for (k, p, r) in (← registryOrphans sj) do
+        o := o.mon "deletion" "registry-orphan" s!"after Add({short e.id}) the registry still blocks key {k} for author {short p} on behalf of request {short r}, which is not retained"
     if (all.length : Int) == st.c.cap then o := o.tag "full"
     -- property monitors on the implementation's own successive listings
     if inClaimE e then
